@@ -395,17 +395,24 @@ Proof.
 Qed.
 Lemma S_mv_unfold a b t c :
   stat a t = Some (File c) ->
-  S_mv a b t = match put_file (mv_target a b t) c t with
-               | Some t1 => (OVal s_true, delete (pk a) t1)
-               | None => (OErr, t)
-               end.
+  S_mv a b t = if same_entry a (mv_target a b t) then (OErr, t)
+               else match put_file (mv_target a b t) c t with
+                    | Some t1 => (OVal s_true, delete (pk a) t1)
+                    | None => (OErr, t)
+                    end.
 Proof.
-  intros Es. unfold S_mv. rewrite Es. destruct (put_file _ _ _) as [t'|] eqn:Ep; [|done].
+  intros Es. unfold S_mv, S_cp. rewrite Es. destruct (same_entry _ _); [done|].
+  destruct (put_file _ _ _) as [t'|] eqn:Ep; [|done].
   apply put_file_Some in Ep as (t1 & Hm & Hp & Hk & Hd & ->). apply stat_file in Es as [Hl Hpa].
   unfold S_rm_one. destruct (decide (pk a = pk (mv_target a b t))) as [E|Hne].
   - rewrite (proj2 (stat_file a _ c)); [done|]. split; [rewrite E; by rewrite lookup_insert|done].
   - rewrite (proj2 (stat_file a _ c)); [done|]. split; [|done].
     rewrite lookup_insert_ne by done. by eapply mkdirs_keeps.
+Qed.
+Lemma same_entry_other (a b : path) (t : tree) : t !! pk a <> t !! pk b -> same_entry a b = false.
+Proof.
+  intros H. unfold same_entry. rewrite bool_decide_eq_false_2; [by rewrite andb_false_r|].
+  intros E. by rewrite E in H.
 Qed.
 Lemma same_file_spec a b c t :
   stat a t = Some (File c) -> p_same_file a b t = same_entry a b.
@@ -558,12 +565,13 @@ Proof.
   destruct (key_snoc (pk a) Hna) as (name & Hlast & Hka).
   unfold mv_target in *. rewrite (path_ok_ends_sep b) in * by done. rewrite Hlast in *.
   destruct (stat b t) as [[c2|]|] eqn:Eb.
-  - (* the target is an existing file: overwrite *)
+  - (* the target is an existing file: overwrite, unless it is the source itself *)
     pose proof Eb as [Hlb Hpb]%stat_file.
     assert (p_exists b t = true) as -> by (unfold p_exists; by rewrite Eb).
     assert (p_is_file b t = true) as -> by (unfold p_is_file; by rewrite Eb).
     assert (p_is_dir b t = false) as -> by (unfold p_is_dir; by rewrite Eb).
-    rewrite Hpb. cbn [orb].
+    rewrite Hpb. cbn [orb]. rewrite (same_file_spec a b c t Es).
+    destruct (same_entry a b); [done|].
     assert (is_dir_at t (pk b) = false) as Hdb by (apply lookup_not_dir; [done|congruence]).
     rewrite create_parent_spec, put_file_unfold by done. rewrite Hpb.
     rewrite mkdirs_id by eauto using wf_parent_dir. rewrite Hdb.
@@ -580,12 +588,21 @@ Proof.
     rewrite put_file_unfold by (cbn; by destruct (pk b)). cbn [pjoin pk ptr] in *. rewrite parent_snoc.
     rewrite mkdirs_id by done.
     destruct (t !! (pk b ++ [name])) as [[c3|]|] eqn:Et.
-    + unfold is_file_at in Hk. by rewrite Et in Hk.
-    + assert (is_dir_at t (pk b ++ [name]) = true) as -> by (apply is_dir_at_lookup; [by destruct (pk b)|done]).
+    + (* a file of that name is there: refused; the reference tree agrees only when it is the source *)
+      unfold is_file_at in Hk. rewrite Et in Hk. cbn [andb] in Hk.
+      destruct (decide (pk a = pk b ++ [name])) as [E|Hne].
+      * unfold same_entry. cbn [pjoin pk ptr negb andb]. rewrite bool_decide_eq_true_2 by done.
+        unfold x_move_file, x_file_copy. rewrite Hea, Hfa. cbn [negb andb].
+        assert (p_exists (pjoin b name) t = true) as ->; [|done].
+        unfold p_exists, stat. cbn [pjoin pk ptr]. by rewrite Et.
+      * by rewrite (bool_decide_eq_false_2 _ Hne) in Hk.
+    + rewrite (same_entry_other a (pjoin b name) t) by (cbn [pjoin pk]; congruence).
+      assert (is_dir_at t (pk b ++ [name]) = true) as -> by (apply is_dir_at_lookup; [by destruct (pk b)|done]).
       unfold x_move_file, x_file_copy. rewrite Hea, Hfa. cbn [negb andb].
       assert (p_exists (pjoin b name) t = true) as ->; [|done].
       unfold p_exists. rewrite (proj2 (stat_dir _ t)); done.
-    + assert (is_dir_at t (pk b ++ [name]) = false) as Hn.
+    + rewrite (same_entry_other a (pjoin b name) t) by (cbn [pjoin pk]; congruence).
+      assert (is_dir_at t (pk b ++ [name]) = false) as Hn.
       { apply lookup_not_dir; [by destruct (pk b)|congruence]. }
       rewrite Hn. rewrite (move_file_ok a (pjoin b name) c); cbn [pjoin pk ptr]; rewrite ?parent_snoc; auto.
       by destruct (pk b).
@@ -597,14 +614,16 @@ Proof.
     + (* written as a directory: create it, move inside *)
       cbn [orb andb negb]. rewrite dir_create_spec by done.
       rewrite put_file_unfold by (cbn; by destruct (pk b)). cbn [pjoin pk ptr]. rewrite parent_snoc.
-      destruct (mkdirs (pk b) t) as [t1|] eqn:Em; [|done].
+      destruct (mkdirs (pk b) t) as [t1|] eqn:Em; [|by destruct (same_entry _ _)].
       assert (t !! pk b = None) as Hbn.
       { apply stat_none in Eb as [|(c' & Hc & _)]; [done|]. exfalso.
         apply mkdirs_Some in Em as [Hf _]. specialize (Hf (pk b) (self_in_prefixes _ Hnb)).
         unfold is_file_at in Hf. by rewrite Hc in Hf. }
+      assert (t !! (pk b ++ [name]) = None) as Ht0.
+      { eapply wf_below_none; [done|done|done|]. by apply prefix_app_r. }
+      rewrite (same_entry_other a (pjoin b name) t) by (cbn [pjoin pk]; congruence).
       assert (t1 !! (pk b ++ [name]) = None) as Ht1.
-      { rewrite (mkdirs_other _ _ _ _ Em) by apply not_prefix_snoc.
-        eapply wf_below_none; [done|done|done|]. by apply prefix_app_r. }
+      { by rewrite (mkdirs_other _ _ _ _ Em) by apply not_prefix_snoc. }
       assert (is_dir_at t1 (pk b ++ [name]) = false) as Hn.
       { apply lookup_not_dir; [by destruct (pk b)|congruence]. }
       rewrite Hn. unfold x_move_items.
@@ -616,6 +635,7 @@ Proof.
       * by eapply mkdirs_is_dir.
     + assert (t !! pk b = None) as Hbn.
       { apply stat_none in Eb as [|(c' & _ & ?)]; [done|congruence]. }
+      rewrite (same_file_spec a b c t Es). rewrite !(same_entry_other a b t) by congruence.
       cbn [orb andb negb] in *. destruct (has_ext b) eqn:Ex; cbn [orb andb negb] in *.
       * (* looks like a file name: rename *)
         rewrite create_parent_spec, put_file_unfold by done. rewrite Epb.
@@ -779,10 +799,10 @@ Proof.
   - by apply S_cp_wf.
   - apply andb_true_iff in Hd as [[Ha Hb]%andb_true_iff _].
     unfold S_mv. destruct (stat a t) as [[c|]|]; [|done|done].
-    destruct (put_file (mv_target a b t) c t) as [t1|] eqn:E; [|done].
-    pose proof (put_file_wf _ _ _ _ Hwf E) as H1.
+    pose proof (S_cp_wf a (mv_target a b t) t Hwf) as H1.
+    destruct (S_cp a (mv_target a b t) t) as [o1 t1]. cbn [snd] in H1.
     pose proof (S_rm_one_wf false a t1 H1 (path_ok_nonempty _ Ha)) as H2.
-    by destruct (S_rm_one false a t1).
+    destruct o1; try done. by destruct (S_rm_one false a t1).
   - apply andb_true_iff in Hd as [Hps _]. unfold S_rm. destruct ps as [|p ps]; [done|].
     by apply S_rm_list_wf.
   - unfold S_rmdir. destruct (stat p t) as [[c|]|] eqn:Es; [done| |done].
@@ -834,4 +854,20 @@ Proof.
   intros Es Hk Hp. unfold M_cp, S_cp, p_exists, p_is_file. rewrite Es. cbn [negb].
   rewrite (same_file_spec a b c t Es). unfold same_entry. rewrite Hp, Hk.
   by rewrite bool_decide_eq_true_2.
+Qed.
+
+(* mv of a file onto itself: an error that changes nothing — in the commands and in the reference
+   tree (where it follows from "mv = copy then delete" and "cp onto itself fails") *)
+Lemma mv_self_error prn xmd a b c t :
+  stat a t = Some (File c) -> pk b = pk a -> ptr b = false -> ends_sep b = false ->
+  M_mv prn xmd a b t = (OErr, t) /\ S_mv a b t = (OErr, t).
+Proof.
+  intros Es Hk Hp He. pose proof Es as [Hl Hpa]%stat_file.
+  assert (stat b t = Some (File c)) as Eb by (apply stat_file; by rewrite Hk).
+  assert (same_entry a b = true) as Hs.
+  { unfold same_entry. rewrite Hp, Hk. by rewrite bool_decide_eq_true_2. }
+  split.
+  - unfold M_mv, p_exists, p_is_file. rewrite Es, Eb. cbn [negb andb].
+    by rewrite (same_file_spec a b c t Es), Hs.
+  - rewrite (S_mv_unfold _ _ _ _ Es). unfold mv_target, p_is_dir. rewrite Eb, He. cbn [orb]. by rewrite Hs.
 Qed.
